@@ -11,7 +11,7 @@ func init() {
 	register(&propDef{
 		id: "C21", title: "Routers distribute messages according to their strategy",
 		technique: "index-range + cyclic-counter rule, map-iteration-order taint (slice built by ranging a map must be sorted before positional use), loop-shape rule for fan-out, mutation⇒rebuild pairing for the hash ring, purity of ring lookup",
-		explanation: "Decides: (1) round-robin: the routee index is in [0,len) for every counter value (unsigned modulus), the counter is stored as (index+1) mod len (cyclic order across any wrap), and the routee slice that the index refers to has a deterministic order — availableRoutees builds it by ranging over a map and must sort it on every path before returning; stopped routees are not placed in the list; routeByStrategy is reached only with a non-empty list; (2) random / hash fallbacks index with rand.IntN(len); (3) fan-out: the default strategy ranges over all routees with one Tell per element and no early exit; (4) consistent hash: every function that adds to or deletes from routeesMap calls rebuildHashRing afterwards on every path (lazy cleanup in availableRoutees exempt, see table), the ring's key slice is sorted in set, lookup wraps idx >= len to 0 and neither writes ring state nor reads anything but the ring and the key (same key ⇒ same member while the ring is unchanged).",
+		explanation: "Decides: (1) round-robin: the routee index is in [0,len) for every counter value (unsigned modulus), the counter is stored as (index+1) mod len (cyclic order across any wrap), and the routee slice that the index refers to has a deterministic order — availableRoutees builds it by ranging over a map and must sort it on every path before returning; stopped routees are not placed in the list; routeByStrategy is reached only with a non-empty list; (2) random / hash fallbacks index with rand.IntN(len); (3) fan-out: the default strategy ranges over all routees with one Tell per element and no early exit; (4) consistent hash: every function that adds to or deletes from routeesMap calls rebuildHashRing afterwards on every path (lazy cleanup in availableRoutees exempt, see table), the ring's key slice is sorted in set, lookup wraps idx >= len to 0 and neither writes ring state nor reads anything but the ring and the key (same key ⇒ same member while the ring is unchanged). Added after the probe round: in routeByConsistentHash a random routee is chosen only when the key is empty, the ring's member is not registered or it is not running; the owner is looked up once.",
 		assumptions: []string{"'removing a routee only moves keys it owned' is a property of consistent hashing given a fixed hash function; only the ring construction shape is checked", "sort.Search contract", "availableRoutees' lazy deletion of a dead routee leaves the ring stale until the Terminated/stop handler rebuilds it (exempt)"},
 		minObl:     16,
 		run:        runC21,
